@@ -2,4 +2,4 @@
 From Coq Require Import List String.
 From Coq Require Import ExtrOcamlBasic ExtrOcamlString.
 From Mimium Require Import Fmt.Model.
-Extraction "fmt_model.ml" doc_of is_rendering dwords cst_words safe_breaks in_fragment same_doc comments_in.
+Extraction "fmt_model.ml" doc_of is_rendering dwords cst_words safe_breaks in_fragment same_doc comments_in keeps_breaks doc_flags src_observed.
